@@ -5,7 +5,7 @@ import ast
 
 from ..cfg import always_raises
 from ..core import AnalysisError, FunctionInfo, calls_in, call_name, dotted, unparse, walk_no_nested
-from ..facts import return_facts, show
+from ..facts import assign_facts, possible_values, return_facts, show
 from ..match import canon, if_chain, returns_of
 from ..report import Ctx
 
@@ -161,23 +161,20 @@ def r3_lookup_chain(ctx: Ctx) -> None:
     if any(isinstance(n, (ast.While, ast.For)) for n in walk_no_nested(vf.node)):
         raise AnalysisError("Scope.value_for walks the scope chain with a loop; the recursive lookup facts cannot be read off")
     vff = return_facts(vf)
-    deleg = [(v, c) for v, c in vff if v == f"self.parent.value_for({sym})"]
-    own = [(v, c) for v, c in vff if v == f"self[{sym}]"]
-    ctx.check(len(deleg) >= 1 and len(deleg) + len(own) == len(vff), "Scope.value_for:delegation", f"the only results are this scope's own entry and the parent's answer for the same name; found: {show(vff)}")
-    local_true = f"{sym} in self.symbols or {sym} in self.code_symbols"
-    def not_local(c: frozenset) -> bool:
-        return (local_true, False) in c or ((f"{sym} in self.symbols", False) in c and (f"{sym} in self.code_symbols", False) in c)
-    def is_local(c: frozenset) -> bool:
-        if (local_true, True) in c:
-            return True
-        # `if self.parent and sym not in self.symbols and sym not in self.code_symbols: <delegate>` ... own entry otherwise
-        for t, pol in c:
-            if not pol and set(t.split(" and ")) == {"self.parent", f"{sym} not in self.symbols", f"{sym} not in self.code_symbols"}:
-                return True
-        return False
-    ok = all(not_local(c) and ("self.parent", True) in c for _v, c in deleg) and all(is_local(c) or ("self.parent", False) in c for _v, c in own)
-    ctx.check(ok, "Scope.value_for:local-first", f"a name defined in this scope wins; only otherwise is the parent consulted (innermost definition); found: {show(vff)}")
-    ctx.check(any(("self.parent", False) in c for _v, c in own), "Scope.value_for:root", "the root scope answers from its own tables (and raises when absent)")
+    deleg_v, own_v = f"self.parent.value_for({sym})", f"self[{sym}]"
+    ctx.check({v for v, _c in vff} == {deleg_v, own_v}, "Scope.value_for:delegation", f"the only results are this scope's own entry and the parent's answer for the same name; found: {show(vff)}")
+    atoms = ["self.parent", f"{sym} in self.symbols", f"{sym} in self.code_symbols"]
+    table = possible_values(vff, atoms)
+    ok_local = ok_root = True
+    for (parent, in_sym, in_code), vals in table.items():
+        want = {deleg_v} if (parent and not (in_sym or in_code)) else {own_v}
+        if vals != want:
+            if not parent:
+                ok_root = False
+            else:
+                ok_local = False
+    ctx.check(ok_local, "Scope.value_for:local-first", f"a name defined in this scope wins; only otherwise is the parent consulted (innermost definition); found: {show(vff)}")
+    ctx.check(ok_root, "Scope.value_for:root", "the root scope answers from its own tables (and raises when absent)")
     gi = ctx.repo.func(SYMBOLS, "Scope.__getitem__")
     raises = [n for n in walk_no_nested(gi.node) if isinstance(n, ast.Raise)]
     ctx.check(len(raises) == 1 and "SymbolNotDefined" in unparse(raises[0]), "Scope.__getitem__:undefined", "an undefined name raises SymbolNotDefined")
@@ -227,9 +224,13 @@ def r4_export(ctx: Ctx) -> None:
         ctx.check(ok, "Resolver.restore_scope:export-condition", f"exports happen for named scopes only, when requested; conditions at the export: {sorted(conds)}")
     good = _export_form(rs)
     ctx.check(good, "Resolver.restore_scope:export", "every symbol k of the scope becomes `name.k` with the same value in the enclosing scope")
-    tail = [s for s in rs.node.body if isinstance(s, ast.If) and unparse(s.test) == "self.current_scope.parent is not None"]
-    ok = len(tail) == 1 and [unparse(b) for b in tail[0].body] == ["self.current_scope = self.current_scope.parent"] and always_raises(tail[0].orelse)
-    ctx.check(ok, "Resolver.restore_scope:pop", "leaves to the parent scope; leaving the root raises")
+    pf = assign_facts(rs, "self.current_scope")
+    ok = pf == {("self.current_scope.parent", frozenset({("self.current_scope.parent is None", False)}))}
+    from ..cfg import CFG as _CFG
+    g2 = _CFG(rs.node)
+    raises = [n for n in walk_no_nested(rs.node) if isinstance(n, ast.Raise)]
+    ok_raise = len(raises) == 1 and ("self.current_scope.parent is None", True) in g2.path_conditions(g2.node_of(raises[0]), rs.node)
+    ctx.check(ok and ok_raise, "Resolver.restore_scope:pop", f"leaves to the parent scope; leaving the root raises; found: {show(pf)}")
     li = ctx.repo.func("a816.parse.scanner_states", "lex_identifier")
     dots = [s for s in walk_no_nested(li.node) if isinstance(s, ast.If) and unparse(s.test) == "s.peek() == '.'"]
     ok = len(dots) == 1 and [unparse(b) for b in dots[0].body] == ["s.next()", "s.accept_run(identifier_chars)"]
